@@ -6,7 +6,8 @@ import struct
 
 from sa.core import Ob
 from sa.pm import AnalysisError, norm, body_nodes
-from sa import gi, df, ru, ct
+from sa import gi, df, ru, ct, sym
+from sa.pm import Undecided
 from sa.interp import FuncVal, BoundMethod, Unknown, InstanceVal, ClassVal
 from spec import p2p as SPEC
 
@@ -68,22 +69,73 @@ def c16_1(ctx):
         val = None
     ctx.check(val is not None and " ".join(val.split()) == " ".join(SPEC.ALERT.split()), "alert-sublayout", ctx.where(f), "alert payload layout is %r" % (val,))
     # parser and packer split the layout the same way
-    mp = ctx.func(MPP, "_make_parser")
-    t = norm(mp.node)
-    ctx.check("struct_items = [s.split(':') for s in the_struct.split()]" in t and "names = [s[0] for s in struct_items]" in t and "types = ''.join((s[1] for s in struct_items))" in t, "parser-split", ctx.where(mp),
-              "_make_parser does not split the layout into (name, type) pairs field by field")
-    pk = ctx.p.functions.get(ctx.func(MPP, "make_parser_and_packer").qualname + ".pack_from_data")
-    if pk is None:
-        raise AnalysisError("pack_from_data not found")
-    t = norm(pk.node)
-    ctx.check("pairs = [t.split(':') for t in the_fields]" in t and "for name, type in pairs:" in t, "packer-split", ctx.where(pk), "pack_from_data does not split the layout into (name, type) pairs field by field")
+    _refcheck(ctx, MPP, "_make_parser", "mpp_make_parser", "parser-split")
+    _refcheck(ctx, MPP, "make_parser_and_packer.pack_from_data", "mpp_pack_from_data", "packer-split")
+    _refcheck(ctx, MPP, "make_post_unpack_alert", "mpp_post_unpack_alert", "alert-parser")
+
+
+_REF = None
+
+
+def _ref():
+    global _REF
+    if _REF is None:
+        import os
+        _REF = ast.parse(open(os.path.join(os.path.dirname(os.path.dirname(os.path.abspath(__file__))), "spec", "ref_p2p.py")).read())
+    return _REF
+
+
+def _refcheck(ctx, rel, dotted, refname, key, ints=None):
+    fi = ctx.p.functions.get(ctx.p.module(rel).name + "." + dotted)
+    if fi is None:
+        fi = ctx.func(rel, dotted)
+    return sym.against_reference(ctx, fi, _ref(), refname, key, ints or (lambda t: t in ("i", "end", "count", "pos", "close") or t.startswith("len(")))
 
 
 # ------------------------------------------------------------------ C16.2
+def _codec(fv):
+    """canonical (condition, value) exits of a codec given as lambda or local function; parameters renamed p0, p1"""
+    if not isinstance(fv, FuncVal) or not isinstance(fv.node, (ast.Lambda, ast.FunctionDef)):
+        return None, None
+    node = fv.node
+    args = node.args
+    names = [a.arg for a in args.posonlyargs + args.args]
+    if isinstance(node, ast.Lambda):
+        fn = ast.FunctionDef("codec", args, [ast.Return(node.body)], [], None)
+        ast.fix_missing_locations(fn)
+        for n in ast.walk(fn):
+            if not hasattr(n, "lineno"):
+                n.lineno = n.end_lineno = getattr(node, "lineno", 1)
+                n.col_offset = n.end_col_offset = 0
+    else:
+        fn = node
+    ren = {n: "p%d" % i for i, n in enumerate(names)}
+    w = sym.SymWalker(fn, sym.Canon(None, None))
+    w.run()
+    from sa.ct import fmt_formula
+    out = set()
+    for e in w.effects:
+        if e.kind == "call" and e.top:
+            out.add((sym._rename_text(fmt_formula(sym._sort_formula(e.reach)) if e.reach not in (True, False) else str(e.reach), ren), "return " + norm(sym._rename(e.call, ren))))
+    for e in w.exits:
+        if e.kind == "fall":
+            if any(x.kind == "call" and x.top for x in w.effects):
+                continue
+            out.add((sym._rename_text(fmt_formula(e.cond) if e.cond not in (True, False) else str(e.cond), ren), "fall"))
+        else:
+            v = norm(sym._rename(e.value, ren)) if e.value is not None else "None"
+            out.add((sym._rename_text(fmt_formula(sym._sort_formula(e.cond)) if e.cond not in (True, False) else str(e.cond), ren), e.kind + " " + v))
+    return out, names
+
+
 def _lam(fv):
-    if isinstance(fv, FuncVal) and isinstance(fv.node, ast.Lambda):
-        return norm(fv.node.body), [a.arg for a in fv.node.args.args]
-    return None, None
+    ex, names = _codec(fv)
+    if ex is None or len(ex) != 1:
+        return None, None
+    (c, v), = ex
+    if c != "True" or not v.startswith("return "):
+        return None, None
+    return v[len("return "):], ["p%d" % i for i in range(len(names))]
 
 
 def c16_2(ctx):
@@ -115,42 +167,24 @@ def c16_2(ctx):
         p, s = codecs.get(ch, (None, None))
         ctx.check(isinstance(p, FuncVal) and p.name == pn and isinstance(s, FuncVal) and s.name == sn, "delegated:%s" % ch, SST + ":1", "codec %r is not (%s, %s)" % (ch, pn, sn))
     # 6-byte integers
-    spf = ctx.func(MPP, "standard_parsing_functions")
-    p6 = ctx.p.functions.get(spf.qualname + ".parse_int_6")
-    s6 = ctx.p.functions.get(spf.qualname + ".stream_int_6")
-    if p6 is None or s6 is None:
-        raise AnalysisError("6-byte codec functions not found")
-    t = norm(p6.node)
-    calls = [c for c in df.calls_in(p6.node) if norm(c.func) == "struct.unpack"]
-    ok = len(calls) == 1 and isinstance(calls[0].args[0], ast.Constant) and calls[0].args[0].value == "<Q" and "f.read(6) + b'\\x00\\x00'" in t
-    ctx.check(ok, "int6-parse", ctx.where(p6), "parse_int_6 is not struct.unpack('<Q', 6 bytes + 2 zero bytes): %s" % [norm(c) for c in calls], sample={"parse": [norm(c) for c in calls]})
-    calls = [c for c in df.calls_in(s6.node) if norm(c.func) == "struct.pack"]
-    ok = len(calls) == 1 and isinstance(calls[0].args[0], ast.Constant) and calls[0].args[0].value == "<Q" and norm(calls[0].args[1]) == s6.params()[1] and "[:6]" in norm(s6.node)
-    ctx.check(ok, "int6-stream", ctx.where(s6), "stream_int_6 is not struct.pack('<Q', v)[:6]: %s" % [norm(c) for c in calls])
+    p6, s6 = codecs.get("6", (None, None))
+    e6, _n = _codec(p6)
+    ctx.check(e6 == {("True", "return struct.unpack('<Q', p0.read(6) + b'\\x00\\x00')[0]")}, "int6-parse", MPP + ":1", "codec '6' parses with %s; it must be struct.unpack('<Q', 6 bytes + 2 zero bytes)" % sorted(e6 or []), sample={"parse": sorted(e6 or [])})
+    e6s, _n = _codec(s6)
+    ctx.check(e6s in ({("True", "return p0.write(struct.pack('<Q', p1)[:6])")}, {("True", "fall")} if False else None) or e6s == {("True", "return p0.write(struct.pack('<Q', p1)[:6])")}, "int6-stream", MPP + ":1",
+              "codec '6' streams with %s; it must be struct.pack('<Q', v)[:6]" % sorted(e6s or []))
     # optional bool: absent <-> None, present byte <-> its truth value
     p, s = codecs.get("O", (None, None))
-    sb, sa_ = _lam(s)
+    eo, _n = _codec(s)
+    want = {("p1 is None", "return p0.write(b'')"), ("not(p1 is None)", "return p0.write(struct.pack('B', p1))")}
+    ctx.check(eo == want, "optional-bool-stream", MPP + ":1", "codec 'O' streams %s; it must write nothing exactly for None and one byte for True/False (an explicit False is not `absent`)" % sorted(eo or []), sample={"stream": sorted(eo or [])})
+    ep, _n = _codec(p)
     ok = False
-    if isinstance(s, FuncVal) and isinstance(s.node, ast.Lambda):
-        body = s.node.body
-        w = body.args[0] if isinstance(body, ast.Call) and df.last_attr(body) == "write" and body.args else None
-        if isinstance(w, ast.IfExp):
-            t = w.test
-            v = sa_[1]
-            if isinstance(t, ast.Compare) and len(t.ops) == 1 and isinstance(t.comparators[0], ast.Constant) and t.comparators[0].value is None and norm(t.left) == v:
-                if isinstance(t.ops[0], ast.Is):
-                    ok = norm(w.body) == "b''" and norm(w.orelse) == "struct.pack('B', %s)" % v
-                elif isinstance(t.ops[0], ast.IsNot):
-                    ok = norm(w.orelse) == "b''" and norm(w.body) == "struct.pack('B', %s)" % v
-    ctx.check(ok, "optional-bool-stream", MPP + ":1", "codec 'O' streams `%s`; it must write nothing exactly for None and one byte for True/False (an explicit False is not `absent`)" % sb, sample={"stream": sb})
-    ok = False
-    if isinstance(p, FuncVal) and not isinstance(p.node, ast.Lambda):
-        w = gi.GuardWalker(ru.opaque)
-        ex = w.run(p.node.body)
-        none_r = [e for e in ex if e.kind == "return" and isinstance(e.value, ast.Constant) and e.value.value is None]
-        val_r = [e for e in ex if e.kind == "return" and e not in none_r]
-        ok = len(none_r) == 1 and len(val_r) == 1 and any("len(" in o and "== 0" in o for o in gi.f_opaques(none_r[0].cond)) and norm(val_r[0].value) in ("bool(struct.unpack('B', b)[0])", "struct.unpack('B', b)[0] != 0", "struct.unpack('?', b)[0]")
-    ctx.check(ok, "optional-bool-parse", MPP + ":1", "codec 'O' does not parse an absent byte to None and a present byte to its truth value")
+    if ep is not None and len(ep) == 2:
+        none_r = [c for c, v in ep if v == "return None"]
+        val_r = [v for c, v in ep if v != "return None"]
+        ok = len(none_r) == 1 and len(val_r) == 1 and "truthy(p0.read(1))" in none_r[0] and val_r[0] in ("return struct.unpack('B', p0.read(1))[0] != 0", "return bool(struct.unpack('B', p0.read(1))[0])", "return struct.unpack('?', p0.read(1))[0]")
+    ctx.check(ok, "optional-bool-parse", MPP + ":1", "codec 'O' parses with %s; an absent byte is None and a present byte its truth value" % sorted(ep or []))
     # object codecs
     for ch, cls, (pm, sm) in (("A", "PeerAddress", ("parse", "stream")), ("v", "InvItem", ("parse", "stream"))):
         p, s = codecs.get(ch, (None, None))
@@ -160,55 +194,37 @@ def c16_2(ctx):
         ctx.check(okp and oks, "object-codec:%s" % ch, MPP + ":1", "codec %r is not (%s.%s, obj.%s(f))" % (ch, cls, pm, sm))
 
 
+    # the network's streamer is built from the network's own block / transaction classes
+    b = ctx.func("pycoin/networks/bitcoinish.py", "create_bitcoinish_network")
+    wb = sym.walk(ctx, b)
+    cs = sym.calls_matching(wb, lambda t: t == "standard_parsing_functions")
+    if not cs:
+        raise Undecided("create_bitcoinish_network does not call standard_parsing_functions directly")
+    for e in cs:
+        a_ = [norm(x) for x in e.raw.args]
+        ctx.check(a_ == ["network.block", "network.tx"], "network-classes", ctx.where(b, e.node),
+                  "the message streamer of a network is built with standard_parsing_functions(%s); blocks and transactions in messages must be parsed with the network's own classes (network.block, network.tx)" % ", ".join(a_))
+
+
 # ------------------------------------------------------------------ C16.3
 def c16_3(ctx):
-    pk = ctx.p.functions.get(ctx.func(MPP, "make_parser_and_packer").qualname + ".pack_from_data")
-    t = norm(pk.node)
-    ok = "if type[0] == '[':" in t and "streamer.stream_struct('I', f, len(kwargs[name]))" in t and "for v in kwargs[name]:" in t and "streamer.stream_struct(type[1:-1], f, *v)" in t and \
-        "if not isinstance(v, (tuple, list)):" in t and "v = [v]" in t and "streamer.stream_struct(type, f, kwargs[name])" in t
-    ctx.check(ok, "array-pack", ctx.where(pk), "pack_from_data does not pack arrays as compact-size count + elements (tuples splatted over the sub-layout)")
-    ps = ctx.func(STR, "Streamer.parse_struct")
-    t = norm(ps.node)
-    ok = "count = self.array_count_parse_f(f)" in t and "subfmt = fmt[i + 1:end]" in t and "if len(subfmt) == 1:" in t and "array.append(self.parse_struct(subfmt, f)[0])" in t and \
-        "array.append(self.parse_struct(subfmt, f))" in t and "items.append(self.parse_lookup[c](f))" in t and "i = end" in t
-    ctx.check(ok, "array-parse", ctx.where(ps), "Streamer.parse_struct does not parse arrays as count (array_count_parse_f) + sub-layout per element (scalar for single-letter sub-layouts)")
-    ss = ctx.func(STR, "Streamer.stream_struct")
-    ctx.check("for c, v in zip(fmt, args):" in norm(ss.node) and "self.stream_lookup[c](f, v)" in norm(ss.node), "stream-struct", ctx.where(ss), "Streamer.stream_struct does not pair format letters with values in order")
-    st = ctx.func(MPP, "standard_streamer")
-    ctx.check("streamer.register_array_count_parse(parse_satoshi_int)" in norm(st.node), "array-count-codec", ctx.where(st), "array counts are not compact-size integers")
-    rf = ctx.func(STR, "Streamer.register_functions")
-    t = norm(rf.node)
-    ctx.check("parse_f, stream_f = v" in t and "self.parse_lookup[c] = parse_f" in t and "self.stream_lookup[c] = stream_f" in t, "codec-registration", ctx.where(rf), "register_functions swaps parser and streamer")
+    _refcheck(ctx, MPP, "make_parser_and_packer.pack_from_data", "mpp_pack_from_data", "array-pack")
+    _refcheck(ctx, STR, "Streamer.parse_struct", "st_parse_struct", "array-parse")
+    _refcheck(ctx, STR, "Streamer.stream_struct", "st_stream_struct", "stream-struct")
+    _refcheck(ctx, MPP, "standard_streamer", "mpp_standard_streamer", "array-count-codec")
+    _refcheck(ctx, STR, "Streamer.register_functions", "st_register_functions", "codec-registration")
+    _refcheck(ctx, STR, "Streamer.register_array_count_parse", "st_register_array_count_parse", "array-count-registration")
 
 
 # ------------------------------------------------------------------ C16.4
 def c16_4(ctx):
-    # InvItem
-    s = ctx.func(INV, "InvItem.stream")
-    tr = ct.write_trace(s.node, "f")
-    ctx.check([(i.kind, i.fmt, i.value) for i in tr] == [("fmt", "L", "self.item_type"), ("fmt", "#", "self.data")], "invitem-stream", ctx.where(s), "InvItem.stream writes %s, expected L item_type, # hash" % tr)
-    p = ctx.func(INV, "InvItem.parse")
-    ps = ct.parse_struct_calls(p.node)
-    rets = df.returns_of(p.node)
-    ok = len(ps) == 1 and ps[0][0] == "L#" and len(rets) == 1 and isinstance(rets[0].value, ast.Call) and rets[0].value.args and isinstance(rets[0].value.args[0], ast.Starred) and rets[0].value.args[0].value is ps[0][1]
-    ctx.check(ok, "invitem-parse", ctx.where(p), "InvItem.parse does not hand the parsed (type, hash) pair unchanged to the constructor: the 32-bit type (including the witness flag bits) must round-trip",
-              sample={"parse": norm(p.node.body[-1])})
-    init = ctx.func(INV, "InvItem.__init__")
-    asg = {norm(st.targets[0]): norm(st.value) for st in body_nodes(init.node) if isinstance(st, ast.Assign)}
-    ctx.check(asg.get("self.item_type") == init.params()[1] and asg.get("self.data") == init.params()[2], "invitem-fields", ctx.where(init), "InvItem.__init__ does not store (item_type, data) unchanged: %s" % asg)
-    # PeerAddress
-    s = ctx.func(PEER, "PeerAddress.stream")
-    tr = ct.write_trace(s.node, "f")
-    got = [(i.kind, i.fmt, i.value) for i in tr]
-    ctx.check(got == [("struct", "<Q", "self.services"), ("raw", None, "self.ip_bin"), ("struct", "!H", "self.port")], "peeraddress-stream", ctx.where(s), "PeerAddress.stream writes %s; wire format: services u64le, 16-byte address, port u16be" % got,
-              sample={"trace": [repr(i) for i in tr]})
-    p = ctx.func(PEER, "PeerAddress.parse")
-    ps = ct.parse_struct_calls(p.node)
-    t = norm(p.node)
-    ctx.check(len(ps) == 1 and ps[0][0] == "Q@h" and "services, ip_bin, port = parse_struct('Q@h', f)" in t and "return cls(services, ip_bin, port)" in t, "peeraddress-parse", ctx.where(p), "PeerAddress.parse is not Q@h -> (services, ip_bin, port)")
+    _refcheck(ctx, INV, "InvItem.stream", "inv_stream", "invitem-stream")
+    _refcheck(ctx, INV, "InvItem.parse", ["inv_parse", "inv_parse_v2"], "invitem-parse")
+    _refcheck(ctx, INV, "InvItem.__init__", "inv_init", "invitem-fields")
+    _refcheck(ctx, PEER, "PeerAddress.stream", "peer_stream", "peeraddress-stream")
+    _refcheck(ctx, PEER, "PeerAddress.parse", "peer_parse", "peeraddress-parse")
     init = ctx.func(PEER, "PeerAddress.__init__")
-    t = norm(init.node)
-    ctx.check("if len(ip_bin) == 4:" in t and "ip_bin = IP4_HEADER + ip_bin" in t and "self.port = port" in t and "self.ip_bin = ip_bin" in t, "peeraddress-fields", ctx.where(init), "PeerAddress.__init__ does not normalise IPv4 to the mapped 16-byte form / store the fields")
+    _refcheck(ctx, PEER, "PeerAddress.__init__", "peer_init", "peeraddress-fields")
     v = ru.eval_in_module(ctx, init.module, ast.parse("IP4_HEADER", mode="eval").body)
     ctx.check(v == bytes.fromhex("00000000000000000000ffff"), "ipv4-mapped-prefix", ctx.where(init), "IP4_HEADER is %r" % (v,))
 
@@ -216,7 +232,7 @@ def c16_4(ctx):
 OBLIGATIONS = [
     Ob("C16.1", "every message layout equals the wire layout; every type letter has a codec", c16_1, floor=100, engines="TB,REG", exhaustive=True,
        breaks_if="any of the 28 layouts (e.g. getblocktxn indices >= 253)"),
-    Ob("C16.2", "codec pairs: one wire type per letter, struct argument order, 6-byte and optional-bool codecs", c16_2, floor=14, engines="CT,TY", breaks_if="cmpctblock short ids; version(relay=False)"),
-    Ob("C16.3", "arrays pack as count + splatted tuples and parse as count + sub-layout", c16_3, floor=5, engines="CT"),
-    Ob("C16.4", "InvItem and PeerAddress stream/parse symmetrically and store fields unchanged", c16_4, floor=7, engines="CT,DF", breaks_if="inventory types with the witness flag; IPv4 peers"),
+    Ob("C16.2", "codec pairs: one wire type per letter, struct argument order, 6-byte and optional-bool codecs", c16_2, floor=14, engines="SYM,TY", breaks_if="cmpctblock short ids; version(relay=False)"),
+    Ob("C16.3", "arrays pack as count + splatted tuples and parse as count + sub-layout", c16_3, floor=6, engines="SYM"),
+    Ob("C16.4", "InvItem and PeerAddress stream/parse symmetrically and store fields unchanged", c16_4, floor=7, engines="SYM", breaks_if="inventory types with the witness flag; IPv4 peers"),
 ]
